@@ -34,13 +34,15 @@ sh(unhide, wt)
 res["build_vet_tests_with_change"] = "ok" if rc == 0 and "FAIL" not in o else "FAILED: " + o[-500:]
 demo = meta.get("demo_cmd", "")
 rc1, o1 = sh("timeout 300 bash -c %r" % demo, wt, timeout=400)
-res["demo_with_change"] = "fails (expected)" if rc1 != 0 else "PASSES (unexpected)"
+failed1 = rc1 != 0 or re.search(r"^(--- FAIL|FAIL|panic:|fatal error)", o1, re.M) is not None
+res["demo_with_change"] = "fails (expected)" if failed1 else "PASSES (unexpected)"
 res["demo_with_change_tail"] = o1[-400:]
 sh("git checkout -- . && git clean -fdq -e out", wt)
 rc2, o2 = sh("timeout 300 bash -c %r" % demo, wt, timeout=400)
-res["demo_without_change"] = "passes (expected)" if rc2 == 0 else "FAILS (unexpected): " + o2[-300:]
+failed2 = rc2 != 0 or re.search(r"^(--- FAIL|FAIL|panic:|fatal error)", o2, re.M) is not None
+res["demo_without_change"] = "passes (expected)" if not failed2 else "FAILS (unexpected): " + o2[-300:]
 sh("git checkout -- . && git clean -fdq -e out", wt)
-res["confirmed"] = res["applies"] and res["build_vet_tests_with_change"] == "ok" and rc1 != 0 and rc2 == 0
+res["confirmed"] = res["applies"] and res["build_vet_tests_with_change"] == "ok" and failed1 and not failed2
 # ---- 2. run the checks against /repo with the change applied
 rc, o = sh("git status --porcelain", "/repo")
 if o.strip():
